@@ -280,6 +280,14 @@ class Obligation:
         self.info = info or {}
 
 
+def _has_quantifier(t, depth=0):
+    if z3.is_quantifier(t):
+        return True
+    if depth > 50 or not z3.is_app(t):
+        return False
+    return any(_has_quantifier(ch, depth + 1) for ch in t.children())
+
+
 class Engine:
     def __init__(self, repo, contract, registry, case=None, opts=None):
         self.repo = repo
@@ -322,8 +330,10 @@ class Engine:
         raise ValueError(kind)
 
     def feasible(self, st, cond=None):
+        # feasibility only prunes paths: unknown/timeout keeps the path
         s = z3.Solver()
-        s.set('timeout', self.feas_timeout)
+        quant = any(_has_quantifier(p) for p in st.pc)
+        s.set('timeout', 700 if quant else self.feas_timeout)
         for a in self.axioms:
             s.add(a)
         for p in st.pc:
